@@ -74,8 +74,13 @@ def run_workers(prop, specs, run_dir, env, jobs, timeout, attempt=0):
         with open(sf, 'w') as f:
             json.dump(shard, f)
         log = open(os.path.join(run_dir, 'log-%d-%d.txt' % (attempt, i)), 'w')
+        # workers run in an empty, frozen directory (path-less Scripts complete file names
+        # relative to the cwd); vf is found through PYTHONPATH
+        cwd = os.path.join(run_dir, 'cwd')
+        os.makedirs(cwd, exist_ok=True)
         p = subprocess.Popen([PYTHON, '-m', 'vf.worker', prop, sf, of],
-                             cwd=str(VERIF), env=env, stdout=log, stderr=subprocess.STDOUT)
+                             cwd=cwd, env=dict(env, PYTHONPATH=str(VERIF)), stdout=log,
+                             stderr=subprocess.STDOUT)
         procs.append((p, shard, of, log))
     deadline = time.time() + timeout
     results, lost = {}, []
